@@ -43,6 +43,22 @@ def one(seed):
 
 def main():
     seeds = sorted(s for s in os.listdir(os.path.join(V, "seeded")) if os.path.isdir(os.path.join(V, "seeded", s)))
+    only = [a for a in sys.argv[1:] if not a.startswith("-")]
+    if only:           # quick look at some seeds (e.g. `seed_matrix.py -8 -9 -10 -11` suffixes or full ids); does not rewrite MATRIX.md
+        pass
+    sel = [a for a in sys.argv[1:]]
+    if sel:
+        seeds = [s for s in seeds if any(s.endswith(a) or s == a for a in sel)]
+        with ProcessPoolExecutor(max_workers=16) as ex:
+            out = dict(ex.map(one, seeds))
+        for s in seeds:
+            r = out[s]
+            own = s.split("-")[0]
+            if "error" in r:
+                print(s, "ERROR", r["error"]); continue
+            others = [f"{p}:{','.join(r[p]['violations'])}" for p in PROPS if p != own and r[p]["violations"]]
+            print(s, "VIOLATION" if r[own]["violations"] else ("analysis-error" if r[own]["analysis_errors"] else "missed"), r[own]["violations"] or r[own]["analysis_errors"], "|", "; ".join(others))
+        return
     with ProcessPoolExecutor(max_workers=16) as ex:
         out = dict(ex.map(one, seeds))
     json.dump(out, open(os.path.join(V, "seeded", "matrix.json"), "w"), indent=1)
